@@ -6,7 +6,7 @@ set_option linter.unusedVariables false
 namespace Pcore.Lat
 variable (cfg : Cfg) (sfh : Bool)
 
-/-- `Type[X] ⊒ Type[Y]` and `u ∈ Type[Y]`: soundness is transitivity `X ⊒ Y ⊒ u` (C03, stage-1 fragment) -/
+/-- `Type[X] ⊒ Type[Y]` and `u ∈ Type[Y]`: soundness is transitivity `X ⊒ Y ⊒ u` (C03, fragment `Ty.TF`) -/
 theorem recv_typ (hl : ∀ s, (cfg.lower s).length = s.length) (x b : Ty) (v : Val) (H : Hyp cfg sfh (.typ x) b v)
     (h : asgRecv cfg sfh (.typ x) b = true) (hi : inst cfg sfh b v = true) : inst cfg sfh (.typ x) v = true := by
   unfold asgRecv at h
